@@ -86,6 +86,7 @@ def run(ctx: Ctx) -> None:
     if driver_ok:
         ctx.guard("tie quotes", tie_quotes)
     doc_oracle(ctx, ctx.scale(400, 6000))
+    sentence_end_family(ctx)
     scoped_oracle(ctx, ctx.scale(220, 3000))
     ctx.assume("`\\w` of Python's re is a parameter (flags per character computed by re itself)")
     ctx.assume("rewrite_text_across_inlines / Marko inline parsing are covered by the document-level oracle, not by a theorem yet")
@@ -107,6 +108,34 @@ def doc_oracle(ctx: Ctx, n: int) -> None:
             continue
         ctx.count(["doc", doc, o], nontrivial=on != off, sample=(i % 977 == 3))
         onoff_oracles(ctx, {"doc": doc, "opts": o}, off, on)
+
+
+QUOTE_AT_SENTENCE_END = [
+    'He called it "the plan". Then he left the room and nobody said a word about it.',
+    "She said 'no'. That was all there was to it, really, and we went home.",
+    'Was it "done"? Nobody knew for sure. It was "fine"! Or so they said back then.',
+    'He wrote (in "ink"). The letter was long enough to need wrapping at some point.',
+    'They called it "a plan." Then they left. It was called \'the plan.\' Really it was.',
+    'Ends with quote "like this". "And starts" another one. \'Single\' too. Done now.',
+]
+
+
+def sentence_end_family(ctx: Ctx) -> None:
+    """same LINE BREAKS with the option on as off, where line breaks depend on the characters around a quote: a closing quote
+    before or after the sentence punctuation, in semantic mode (the sentence-end heuristic reads quote characters) and at the
+    widths where the quoted word ends a line"""
+    from flowmark import reformat_text
+    for text in QUOTE_AT_SENTENCE_END:
+        for pre in ("", "- ", "> "):
+            doc = pre + text + "\n"
+            for sem in (True, False):
+                for W in (0, 24, 40, 88):
+                    o = dict(width=W, semantic=sem, cleanups=False, ellipses=False)
+                    off = reformat_text(doc, smartquotes=False, **o)
+                    on = reformat_text(doc, smartquotes=True, **o)
+                    ctx.count(["quote-at-sentence-end", doc, W, sem], nontrivial=on != off, sample=False)
+                    ctx.bump("quote-at-sentence-end")
+                    onoff_oracles(ctx, {"doc": doc, "opts": o}, off, on)
 
 
 def onoff_oracles(ctx: Ctx, case: dict, off: str, on: str) -> bool:
